@@ -139,13 +139,13 @@ impl Prop for C18 {
             // afterwards); s c d: a sequence whose virtual key is vk1 (a tap "triggered from a
             // sequence"); "gg": two toggles within the same millisecond
             case.cfg = format!(
-                "(defsrc a p r t g k s c d)\n(defvirtualkeys vk1 1)\n(defseq vk1 (c d))\n(deflayer l0 (hold-for-duration 100 vk1) ({} press-vkey vk1) ({} release-vkey vk1) ({} tap-vkey vk1) ({} toggle-vkey vk1) (release-key 1) sldr c d)\n",
+                "(defsrc a p r t g k s c d m)\n(defvirtualkeys vk1 1)\n(defseq vk1 (c d))\n(deflayer l0 (hold-for-duration 100 vk1) ({} press-vkey vk1) ({} release-vkey vk1) ({} tap-vkey vk1) ({} toggle-vkey vk1) (release-key 1) sldr c d (multi (on-press press-vkey vk1) (on-release release-vkey vk1)))\n",
                 forms[0], forms[1], forms[2], forms[3]
             );
             case.set("forms", forms.join(","));
             let mut ops = vec![Op::Gap(2)];
             for _ in 0..r.range(2, 7) {
-                let name = *r.pick(&["a", "a", "a", "a", "p", "r", "r", "t", "g", "k", "k", "seq", "seq", "gg"]);
+                let name = *r.pick(&["a", "a", "a", "a", "p", "r", "r", "t", "g", "k", "k", "seq", "seq", "gg", "m", "mm"]);
                 match name {
                     "seq" => {
                         for kn in ["s", "c", "d"] {
@@ -156,6 +156,12 @@ impl Prop for C18 {
                                 ops.push(Op::Gap(3));
                             }
                         }
+                    }
+                    "mm" => {
+                        // m presses the virtual key on press and releases it on release: both within
+                        // one millisecond (the release must not be lost because the press is still queued)
+                        let m = oscode_of("m");
+                        ops.extend([Op::Press(m), Op::Release(m)]);
                     }
                     "gg" => {
                         let g = oscode_of("g");
@@ -369,7 +375,11 @@ impl Prop for C18 {
                         tm = end;
                     }
                     Op::Press(c) | Op::Release(c) => {
-                        let name = ["a", "p", "r", "t", "g", "k", "d"].iter().find(|n| oscode_of(n) == *c).copied().unwrap_or("?");
+                        let mut name = ["a", "p", "r", "t", "g", "k", "d", "m"].iter().find(|n| oscode_of(n) == *c).copied().unwrap_or("?");
+                        if name == "m" {
+                            // press-vkey on press, release-vkey on release
+                            name = if matches!(op, Op::Press(_)) { "p!" } else { "r!" };
+                        }
                         // the operation happens at the press or at the release of its key
                         let on_release = match name {
                             "p" => forms.first() == Some(&"on-release"),
@@ -378,9 +388,10 @@ impl Prop for C18 {
                             "g" => forms.get(3) == Some(&"on-release"),
                             _ => false,
                         };
-                        if on_release != matches!(op, Op::Release(_)) {
+                        if !name.ends_with('!') && on_release != matches!(op, Op::Release(_)) {
                             continue;
                         }
+                        let name = name.trim_end_matches('!');
                         let at = tm + 1;
                         match name {
                             "a" => {
